@@ -1,6 +1,6 @@
 SPECIFICATION GenSpec
 CONSTANTS
-  MaxRounds = 3
+  MaxRounds = 2
   MaxDepth = 3
   MaxDefects = 2
   MaxRenames = 1
